@@ -188,6 +188,21 @@ def random_case(rng, nmax):
     return n, gens
 
 
+def small_enough(L, bound=2 ** 11):
+    """TLC works with the primitive integer multiple of every element in 32-bit integers: its entries must stay small"""
+    for e in L:
+        if not e:
+            continue
+        K = max(t["c"][2] for t in e)
+        ints = [t["c"][0] << (K - t["c"][2]) for t in e]
+        g = 0
+        for x in ints:
+            g = int(np.gcd(g, abs(x)))
+        if g == 0 or max(abs(x) // g for x in ints) >= bound or K > 12:
+            return False
+    return True
+
+
 def bracket_cost(L):
     s = [len(t) for t in L]
     tot = sum(s)
@@ -237,6 +252,8 @@ def rationalize(f, A):
     if f.shape != (d, d, d) or d != len(A):
         return "shape"
     out = [[[] for _ in range(d)] for _ in range(d)]
+    if any(abs(t["c"][0]) >= 2 ** 10 or t["c"][2] > 6 for e in A for t in e):
+        return None
     cmax = max([abs(t["c"][0]) for e in A for t in e] + [1]) * (1 << max([t["c"][2] for e in A for t in e] + [0]))
     for c, a, b in zip(*np.nonzero(np.abs(f) > 1e-10)):
         v = float(f[c, a, b])
@@ -291,7 +308,7 @@ def closure_case(cx, tag, n, gens, form, labels):
     if d < len(gens):
         cx.count("closure:dependent-generators-dropped")
     cost = bracket_cost(A)
-    if cost > cx.budget or d > 70:
+    if cost > cx.budget or d > 70 or not small_enough(A) or not small_enough(gens):
         cx.count("skipped:closure-too-large-for-tlc")
         return
     cx.add(rec(kind="closure", n=n, A=A, B=gens, exact=exact), info=info)
@@ -418,6 +435,9 @@ def vspace_case(cx, n, gens, labels, mode):
         if a is None:
             return
         qans.append(bool(a))
+    if not small_enough(gens) or not small_enough(queries):
+        cx.count("skipped:vspace-too-large-for-tlc")
+        return
     cx.add(rec(kind="vspace", n=n, A=gens, B=queries, kept=[bool(x) for x in kept], qans=qans), info=info)
     cx.count(f"vspace:{mode}")
     cx.count("vspace:dependent-input-rejected", sum(1 for x in kept if not x))
@@ -479,7 +499,7 @@ def run(tier, seed):
     quick = tier == "quick"
     # ---- (M) + (R): the reference decided on itself; expected involution answers
     wd = lib.workdir(PID, "model")
-    NS = 150 if quick else 1500
+    NS = 150 if quick else 1000
     g = lib.run_tlc("LieAlgModel", lib.cfg(constants={"M": M, "NW": 3, "NS": NS, "SEED": seed % 1000}, invariants=["Lawful"]), wd, timeout=3000)
     if g.invariant_violated:
         raise lib.MachineryError("the reference Lie-algebra notions violate their own laws (oracle error): " + g.out[-1500:])
@@ -487,7 +507,7 @@ def run(tier, seed):
     inv_cases = [c for c in g.json_lines if c.get("kind") == "inv"]
     if len(inv_cases) != 4 + 16 + 64:
         raise lib.MachineryError(f"LieAlgModel emitted {len(inv_cases)} involution cases, expected 84")
-    cx = Ctx(rng, budget=40000 if quick else 400000)
+    cx = Ctx(rng, budget=40000 if quick else 100000)
     n_inv = replay_involutions(cx, inv_cases)
     # ---- (T) closures, structure constants, Cartan decompositions
     forms = ["pauli", "operator"]
@@ -502,7 +522,7 @@ def run(tier, seed):
         cases.append(("pair2", 2, [[{"w": a, "c": [1, 0, 0]}], [{"w": b, "c": [1, 0, 0]}]]))
     for sub in itertools.chain.from_iterable(itertools.combinations([[1], [2], [3]], r) for r in (1, 2, 3)):
         cases.append(("one-qubit", 1, [[{"w": w, "c": [1, 0, 0]}] for w in sub]))
-    for i in range(60 if quick else 500):
+    for i in range(60 if quick else 250):
         n, gens = random_case(rng, 3)
         cases.append((f"random{i}", n, gens))
     for i, (tag, n, gens) in enumerate(cases):
@@ -511,7 +531,7 @@ def run(tier, seed):
         plain = form == "operator" and i % 4 == 1
         closure_case(cx, tag, n, gens, form, pick_labels(rng, n, plain))
     # ---- PauliVSpace
-    for i in range(60 if quick else 500):
+    for i in range(60 if quick else 300):
         n, gens = random_case(rng, 3)
         extra = random_case(rng, n)[1] if rng.random() < 0.5 else []
         gens = gens + [e for e in extra if all(len(t["w"]) == n for t in e)]
@@ -613,7 +633,7 @@ def run(tier, seed):
            "samples": samples, "exhaustive": True,
            "exhaustive_part": "involutions: every Pauli word on 1..3 wires x every involution x every wire position x {PauliSentence, operator, dense matrix}; model laws on every pair of words on <= 3 wires"
                               + ("" if quick else "; closures of every pair of 2-qubit words"),
-           "sampled_part": f"{len(cases)} generator sets (named models, {'40 sampled' if quick else 'all 105'} pairs of 2-qubit words, 1-qubit subsets, seeded words / sentences with dyadic coefficients on <= 3 qubits); {60 if quick else 500} PauliVSpace histories; {NS} TLC-generated sentence lists for the model laws",
+           "sampled_part": f"{len(cases)} generator sets (named models, {'40 sampled' if quick else 'all 105'} pairs of 2-qubit words, 1-qubit subsets, seeded words / sentences with dyadic coefficients on <= 3 qubits); {60 if quick else 300} PauliVSpace histories; {NS} TLC-generated sentence lists for the model laws",
            "involution_answers_replayed": n_inv, "negative_controls_rejected": neg,
            "outside_documented_precondition": skipped,
            "cartan_inclusions": {"hold": rel_hold, "fail": rel_fail},
